@@ -754,6 +754,13 @@ class Frame:
                 for x in b.lst[b.pos:e.pos]:
                     acc = acc + (int(x) if isinstance(x, bool) else x)
                 return acc
+            if cn == "std::iota" and len(args) == 3:
+                b, e, v0 = self.eval(args[0]), self.eval(args[1]), self.eval(args[2])
+                if not (isinstance(b, ListIter) and isinstance(e, ListIter) and b.lst is e.lst and 0 <= b.pos <= e.pos <= len(b.lst)):
+                    self.bad(i, "iota over something else than one sequence")
+                for k_ in range(b.pos, e.pos):
+                    b.lst[k_] = v0 + (k_ - b.pos)
+                return None
             if cn == "std::count" and len(args) == 3:
                 b, e, v = self.eval(args[0]), self.eval(args[1]), self.eval(args[2])
                 if not (isinstance(b, ListIter) and isinstance(e, ListIter) and b.lst is e.lst and 0 <= b.pos <= e.pos <= len(b.lst)):
